@@ -139,6 +139,49 @@ def _verdict(o, fn, t, rts, what, node):
     ra = {}
     for rt in rts:
         _arities(rt, ra)
+    # a buffer that is created once, outside the loop, and overwritten in every iteration (`row = [0] * n` hoisted out of
+    # `for k: row[0] = k; d[tuple(row)] = ..`) is summarised as a loop-carried value; whether each iteration overwrites all
+    # that the previous one wrote is not decided here
+    def _is_buffer_init(init):
+        # an accumulator that starts empty or at a number (a memo table, a running total, a growing list) is NOT such a
+        # buffer: what it makes of the formula is compared as usual
+        if not (isinstance(init, tuple) and init and init[0] == "P"):
+            return True
+        if tm.is_const(init) is not None:
+            return False
+        a = tm.single_atom(init)
+        if a is not None and a[0] in ("attr", "sym"):
+            return False        # an existing object updated in place while the loop reads it: not a scratch buffer
+        if a is not None and (a[0] == "emptydict" or (a[0] in ("list", "tuple", "set", "dict") and len(a) == 2 and not a[1])
+                              or (a[0] == "call" and a[1] in ("list", "dict", "set", "defaultdict", "Counter") and not a[2])):
+            return False
+        return True
+
+    def _has_running(x):
+        return isinstance(x, tuple) and ((len(x) == 3 and x[0] == "running" and _is_buffer_init(x[2])) or any(_has_running(y) for y in x))
+    if _has_running(t) and not any(_has_running(rt) for rt in rts):
+        o.undecided(f"{what}: the code keeps a mutable buffer across the iterations of a loop (hoisted out of it): not comparable with the formula", fn, node or fn.node)
+        return "undecided"
+    # The same formula, but the NUMBER OF ITERATIONS of a reduction is read off another sequence than in the reference
+    # (`for p, m in zip(self._probs, jd)` against `for i in range(len(jd))`): equal whenever the zipped sequences have
+    # equal lengths - an invariant of the callers, not decided here.  A length used as a VALUE (a divisor, a factor) is
+    # not touched by this.
+    def _erase_counts(x, inrange=False):
+        if isinstance(x, tuple):
+            if inrange and len(x) == 3 and x[0] == "call" and x[1] == "len":
+                return ("sym", "$count")
+            if x and x[0] == "range":
+                return ("range",) + tuple(_erase_counts(y, True) for y in x[1:])
+            return tuple(_erase_counts(y, inrange) for y in x)
+        return x
+    try:
+        te = tm.canon(_erase_counts(t))
+        if any(te == tm.canon(_erase_counts(rt)) for rt in rts):
+            o.undecided(f"{what}: the formula is the reference's, but an iteration count is taken from another sequence (`len(..)` of a different operand): "
+                        f"equal when the sequences have equal lengths, which is not decided here", fn, node or fn.node)
+            return "undecided"
+    except Exception:
+        pass
     more = sorted(nm for nm, ns in ta.items() if nm in ra and max(ns) > max(ra[nm]))
     if more:
         o.undecided(f"{what}: the code calls {more} with more arguments than the formula does (a parameter was added to it): not comparable", fn, node or fn.node)
